@@ -153,9 +153,17 @@ def check(run):
     boxer = ix.cls(BX, "Boxer")
     exen, runf, end = ix.method(boxer, "exen"), ix.method(boxer, "run"), ix.method(boxer, "end")
     rets = [n for n in walk_local(exen.node) if isinstance(n, ast.Return) and isinstance(n.value, ast.Tuple)]
-    if len(rets) != 1 or len(rets[0].value.elts) != 4:
-        raise AnalysisError("Boxer.exen no longer returns one 4-tuple")
+    if not rets or any(len(r.value.elts) != 4 for r in rets):
+        raise AnalysisError("Boxer.exen no longer returns 4-tuples")
     elts = [classify(e) for e in rets[0].value.elts]
+    # every return statement must hand out the same four roles (a second return that takes the boxes to enter from the near pile instead
+    # of the far pile enters boxes of the branch that was just left)
+    for r in rets[1:]:
+        other = [classify(e) for e in r.value.elts]
+        same = other == elts
+        run.ob("C25.R1", "%s:all-returns-same-roles" % exen.fq, same, run.site(exen, r),
+               "" if same else "exen() has a return whose lists are %s while another returns %s: (exdos, endos, rexdos, rendos) must be "
+               "(near uncommon bottom-up, far uncommon top-down, near common bottom-up, far common top-down) on every path" % (other, elts))
     run.extra["exen_return"] = [list(x) for x in elts]
     pnames = exen.params()[0]
     binds = {n.targets[0].id: unparse(n.value) for n in walk_local(exen.node) if isinstance(n, ast.Assign) and isinstance(n.targets[0], ast.Name)}
